@@ -3,6 +3,7 @@ import MaddyVerif.Model.QueueHop
 import MaddyVerif.Model.QueueRestart
 import MaddyVerif.Model.QueueErr
 import MaddyVerif.Model.QueueDup
+import MaddyVerif.Model.QueueSpool
 import MaddyVerif.Model.QueueTrace
 /-!
 # C01 — every queued recipient ends in exactly one terminal outcome
@@ -1784,5 +1785,73 @@ example :
       ⟨false, false, fun _ => false⟩ [3] = false := by decide
 
 end round10
+
+/-! ## round 11: the meta-data file as another build of the server left it (`Model/QueueSpool.lean`) -/
+section round11
+open MaddyVerif.QueueSpool
+
+/-- A member the running build has no field for - wherever it stands in the file, whatever its
+value - does not change the entry that is loaded. -/
+theorem C01_load_ignores_unknown_fields (d1 d2 : Doc) (k : String) (v : JVal) (hk : k ∉ known) :
+    decode (d1 ++ (k, v) :: d2) = decode (d1 ++ d2) := by
+  unfold decode
+  apply List.map_congr_left
+  intro a ha
+  apply field_skip
+  intro h
+  exact hk (h ▸ ha)
+
+/-- Any number of them. -/
+theorem C01_load_ignores_other_build (d extra : Doc) (h : ∀ m ∈ extra, m.1 ∉ known) :
+    decode (extra ++ d) = decode d := by
+  induction extra with
+  | nil => rfl
+  | cons m rest ih =>
+    have := C01_load_ignores_unknown_fields [] (rest ++ d) m.1 m.2 (h m (by simp))
+    simp only [List.nil_append] at this
+    rw [List.cons_append, this]
+    exact ih (fun x hx => h x (by simp [hx]))
+
+/-- A field that holds its zero value may as well be left out of the file. -/
+theorem C01_load_absent_is_zero (d1 d2 : Doc) (k : String) (v : JVal) (hz : v.zero = true)
+    (h1 : ∀ m ∈ d1, m.1 ≠ k) (h2 : ∀ m ∈ d2, m.1 ≠ k) :
+    decode (d1 ++ (k, v) :: d2) = decode (d1 ++ d2) := by
+  unfold decode
+  apply List.map_congr_left
+  intro a _
+  by_cases hka : k = a
+  · subst hka
+    have e1 : d1.filter (fun m => m.1 == k) = [] := by
+      simp [List.filter_eq_nil_iff]; exact fun a b hm => h1 (a, b) hm
+    have e2 : d2.filter (fun m => m.1 == k) = [] := by
+      simp [List.filter_eq_nil_iff]; exact fun a b hm => h2 (a, b) hm
+    unfold field
+    simp [List.filter_append, List.filter_cons, e1, e2, hz]
+  · exact field_skip d1 d2 k a v hka
+
+/-- The order of the members means nothing as long as no name occurs twice: swapping two
+neighbours (every permutation is a chain of those). -/
+theorem C01_load_ignores_key_order (d1 d2 : Doc) (m n : String × JVal) (h : m.1 ≠ n.1) :
+    decode (d1 ++ m :: n :: d2) = decode (d1 ++ n :: m :: d2) := by
+  unfold decode
+  apply List.map_congr_left
+  intro a _
+  unfold field
+  by_cases hm : m.1 = a <;> by_cases hn : n.1 = a
+  · exact absurd (hm.trans hn.symm) h
+  · simp [List.filter_append, List.filter_cons, hm, hn]
+  · simp [List.filter_append, List.filter_cons, hm, hn]
+  · simp [List.filter_append, List.filter_cons, hm, hn]
+
+/-- Non-vacuity, and the contrast with a strict reading of the same file. -/
+example :
+    let d : Doc := [("MsgMeta", .other "{\"ID\":\"x\"}"), ("From", .str "a@example.org"),
+      ("To", .other "[\"b@example.org\"]"), ("RcptErrs", .other "{}"), ("TriesCount", .null)]
+    decode (("SpoolFormat", .num 3) :: d) = decode d ∧
+    decodeStrict (("SpoolFormat", .num 3) :: d) = none ∧
+    decodeStrict d = some (decode d) ∧
+    decode (d ++ [("From", .str "")]) ≠ decode d := by decide
+
+end round11
 
 end MaddyVerif.C01
